@@ -25,6 +25,8 @@ ALIASES = collections.OrderedDict([
     ('al2', ['d2']),
     ('al13', ['d1', 'd3']),                         # overlapping example ids inside the alias
     ('al21', ['d2', 'd1']),
+    ('al123', ['d1', 'd2', 'd3']),                  # first and third member share an example id
+    ('al321', ['d3', 'd2', 'd1']),
 ])
 
 
@@ -238,6 +240,34 @@ def check_description(args):
                     if got2 != want:
                         bad('examples-not-isolated', f'{backend}: after mutating the yielded examples a new request '
                                                      f'gives {got2}', backend=backend, request=step)
+            # a second database object with the same names but other content, alive at the same time
+            if all_names:
+                twin_parts = copy.deepcopy(parts)
+                for tp in twin_parts:
+                    for dsd in tp['datasets'].values():
+                        for exd in dsd.values():
+                            exd['x'] = ['twin', exd.get('x')]      # a list: survives the JSON round trip
+                try:
+                    twin = make_db(backend, copy.deepcopy(twin_parts), tempfile.mkdtemp(prefix='twin_', dir=tmp))
+                except Exception:       # noqa: BLE001
+                    twin = None
+                if twin is not None:
+                    for name in all_names:
+                        st['transitions'] += 1
+                        e1, e2 = reference(parts, name), reference(twin_parts, name)
+                        if e1[0] != 'ok':
+                            continue
+                        try:
+                            a = db.get_dataset(name)
+                            b = twin.get_dataset(name)
+                            la, lb = list(a), list(b)
+                        except Exception as e:      # noqa: BLE001
+                            bad(f'twin-request-raises/{type(e).__name__}', f'{backend}: {name}: {e}', backend=backend)
+                            continue
+                        if la != [v for _, v in e1[1]] or lb != [v for _, v in e2[1]]:
+                            bad('answer-from-another-database', f'{backend}: two databases with different content asked for '
+                                                                f'{name!r}: {la} / {lb}', backend=backend, request=name)
+                    del twin
             if backend.startswith('dict'):
                 if strip_empty_alias(mine) != strip_empty_alias(snapshot):
                     bad('source-dict-modified', f'{backend}: source dictionaries changed: {mine} (were {snapshot})',
